@@ -1,5 +1,5 @@
 """C16 Excel cells render as documented text and the requested sheet is read."""
-from contracts import rowio_excel as XL
+from contracts import rowio_excel as XL, rowio_writers as RW
 
 PROPERTY = "C16"
 TITLE = "Excel cells render as documented text and the requested sheet is read"
@@ -11,4 +11,4 @@ LEVEL_TEXT = "Deductive proof of cutplace's share (branching, slicing, sheet sel
 LEVEL_NOTE = "Trusts xlrd / xlsxwriter / CPython float and datetime rendering through audited axioms, the pyvc encoding, z3/cvc5."
 TECHNIQUE = "contract-based deductive verification (VCs from the ast of the real functions, z3/cvc5) + bounded workbook audit"
 from contracts import validio as VIO
-UNITS = [XL.unit_excel_cell_value(), XL.unit_excel_rows(), VIO.unit_raw_rows(), XL.unit_excel_workbooks()]
+UNITS = [XL.unit_excel_cell_value(), XL.unit_excel_rows(), VIO.unit_raw_rows(), RW.unit_xlsx_row_writer_write_row(), XL.unit_excel_workbooks()]
